@@ -5,7 +5,7 @@ use std::hash::{Hash, Hasher};
 use std::panic;
 
 use crate::rng::Rng;
-use rspack_sources::{BoxSource, MapOptions, OriginalSource, RawBufferSource, RawSource, RawStringSource, ReplaceSource, ReplacementEnforce, Source, SourceExt};
+use rspack_sources::{BoxSource, MapOptions, OriginalSource, RawBufferSource, RawSource, RawStringSource, ReplaceSource, ReplacementEnforce, Source, SourceExt, SourceMap, SourceMapSource, SourceMapSourceOptions};
 
 fn eqs(a: &BoxSource, b: &BoxSource) -> bool { a.as_ref() == b.as_ref() }
 fn h(s: &BoxSource) -> u64 { let mut x = std::collections::hash_map::DefaultHasher::new(); s.hash(&mut x); x.finish() }
@@ -21,6 +21,12 @@ fn build(kind: u8, d: usize, extra: &[(u32, u32, u8, u8)]) -> (BoxSource, String
     3 => (RawBufferSource::from(BUFS[d % 4].to_vec()).boxed(), format!("RawBufferSource({:?})", BUFS[d % 4])),
     4 => (RawStringSource::from(STRS[d % 4].to_string()).boxed(), format!("RawStringSource({:?})", STRS[d % 4])),
     5 => (OriginalSource::new(STRS[d % 4], if d >= 4 { "g.js" } else { "f.js" }).boxed(), format!("OriginalSource({:?},{})", STRS[d % 4], d >= 4)),
+    7 => {
+      let map = SourceMap::new(if d % 2 == 1 { "AAAA,CAAC" } else { "AAAA" }, vec!["a.js".to_string()], Vec::<String>::new(), Vec::<String>::new());
+      let opts = SourceMapSourceOptions { value: STRS[(d / 2) % 2], name: "x.js", source_map: map,
+        original_source: if d % 8 >= 6 { Some("o".to_string()) } else { None }, inner_source_map: None, remove_original_source: d % 8 == 4 || d % 8 == 5 };
+      (SourceMapSource::new(opts).boxed(), format!("SourceMapSource(d={})", d % 8))
+    }
     _ => {
       let mut r = ReplaceSource::new(RawStringSource::from_static("0123456789"));
       let mut desc = String::from("ReplaceSource[");
@@ -79,9 +85,9 @@ fn check(c: &Case) -> Option<String> {
 }
 
 fn gen(r: &mut Rng) -> Case {
-  let ka = r.below(7) as u8;
+  let ka = r.below(8) as u8;
   let same = r.below(2) == 0;
-  let kb = if same { ka } else { r.below(7) as u8 };
+  let kb = if same { ka } else { r.below(8) as u8 };
   let da = r.below(8) as usize;
   let db = if same && r.below(3) != 0 { da } else { r.below(8) as usize };
   let ext = |r: &mut Rng| (0..r.below(4)).map(|_| { let s = r.below(11) as u32; let e = s + r.below(4) as u32; (s, e, r.below(3) as u8, r.below(5) as u8) }).collect::<Vec<_>>();
